@@ -421,6 +421,10 @@ class StubFuture:
     def cancel(self):
         self.trace.add("CANCEL", self.name)
 
+    def result(self, timeout=None):
+        self.trace.add("WAIT", self.name)
+        return ("", "", 0)
+
 
 def mk_executor(trace):
     ex = hp.PopenExecutor()
@@ -428,7 +432,7 @@ def mk_executor(trace):
     return ex
 
 
-def shutdown_steps(interp, ex, trace):
+def shutdown_steps(interp, ex, trace, wait=False):
     """the two atomic steps of shutdown(wait=False), taken from the real AST: (1) the statement that
     sets the flag, (2) the `with self._lock ...` statement of the else branch"""
     sf, node = loader.func_node(hp.PopenExecutor.__dict__["shutdown"])
@@ -451,14 +455,14 @@ def shutdown_steps(interp, ex, trace):
 
     interp.externals[cf.ThreadPoolExecutor] = lambda i, *a, **k: InlinePool()
     interp.externals[cf.wait] = lambda i, tasks, **k: None
-    env = Env({"self": ex, "wait": False, "cancel_futures": False}, None, hp.__dict__)
+    env = Env({"self": ex, "wait": wait, "cancel_futures": False}, None, hp.__dict__)
 
     def step1():
         trace.add("FLAG-SET")
         interp.exec_fragment([body[0]], env, qual="halmos.processes:PopenExecutor.shutdown#1", is_gen=False)
 
     def step2():
-        kind, payload, _ = interp.exec_fragment(body[1].orelse, env, qual="halmos.processes:PopenExecutor.shutdown#2", is_gen=False)
+        kind, payload, _ = interp.exec_fragment(body[1].body if wait else body[1].orelse, env, qual="halmos.processes:PopenExecutor.shutdown#2", is_gen=False)
         if kind == "raise":
             raise payload
         trace.add("SHUTDOWN-RETURNED")
@@ -469,7 +473,7 @@ def shutdown_steps(interp, ex, trace):
 def submit_vs_shutdown_cases():
     out = []
 
-    def harness(interp):
+    def harness(interp, wait=False):
         ctx = interp.ctx
         trace = Trace()
         ex = mk_executor(trace)
@@ -477,7 +481,7 @@ def submit_vs_shutdown_cases():
         ex._futures.append(old)
         old.start()
         new = StubFuture("new", trace)
-        step1, step2 = shutdown_steps(interp, ex, trace)
+        step1, step2 = shutdown_steps(interp, ex, trace, wait)
         sf, node = loader.func_node(hp.PopenExecutor.__dict__["submit"])
         # interleaving points of submit: before each statement of its body and of the lock body
         pts = []
@@ -535,11 +539,17 @@ def submit_vs_shutdown_cases():
         ev = [e[0] + (":" + e[1] if len(e) > 1 and isinstance(e[1], str) else "") for e in trace.ev]
         sd = trace.index("SHUTDOWN-RETURNED")
         st_new = trace.index("START", "new")
-        ctx.oblige("shutdown(wait=False) completes", z3.BoolVal(sd is not None), info={"trace": ev})
+        ctx.oblige(f"shutdown(wait={wait}) completes", z3.BoolVal(sd is not None), info={"trace": ev})
         if sd is None:
             return
         ctx.oblige("no job is started after shutdown has returned", z3.BoolVal(st_new is None or st_new < sd), info={"trace": ev})
-        for name in ("old", "new"):
+        if wait:
+            for name in ("old", "new"):
+                st = trace.index("START", name)
+                if st is not None:
+                    wt = [k for k, e in enumerate(trace.ev) if e[0] == "WAIT" and e[1] == name and k < sd]
+                    ctx.oblige(f"shutdown(wait=True) returns only after every job that is ever started has been waited for [{name}]", z3.BoolVal(bool(wt) and st < sd), info={"trace": ev})
+        for name in (() if wait else ("old", "new")):
             st = trace.index("START", name)
             if st is not None and st < sd:
                 # (a cancellation that arrives before the worker has created the process is honoured by the
@@ -552,7 +562,62 @@ def submit_vs_shutdown_cases():
             ctx.oblige("ShutdownError only when shutdown had been requested", z3.BoolVal(fl is not None and done["s1"]))
 
     out.append(Case(f"{PROP}/processes.PopenExecutor.submit||shutdown", "every placement of shutdown's steps", harness, replay=replay_submit_race, sources=("halmos.processes:PopenExecutor.submit", "halmos.processes:PopenExecutor.shutdown")))
+    out.append(Case(f"{PROP}/processes.PopenExecutor.submit||shutdown(wait=True)", "every placement of shutdown's steps", lambda interp: harness(interp, True), replay=replay_submit_join_race, sources=("halmos.processes:PopenExecutor.submit", "halmos.processes:PopenExecutor.shutdown", "halmos.processes:PopenExecutor._join")))
     return out
+
+
+def replay_submit_join_race(r):
+    """real threads: submit() is stopped between its flag check and the append (both inside its critical section);
+    shutdown(wait=True) runs meanwhile; then submit() goes on"""
+    import threading
+    import time
+
+    ex = hp.PopenExecutor()
+    in_cs, go_on = threading.Event(), threading.Event()
+    real_is_set = ex._shutdown.is_set
+
+    class Ev:
+        def is_set(self_):
+            v = real_is_set()
+            if threading.current_thread().name == "submitter":
+                in_cs.set()
+                go_on.wait(5)
+            return v
+
+        def set(self_):
+            ex_shutdown.set()
+
+    ex_shutdown = ex._shutdown
+    ex._shutdown = Ev()
+    fut = hp.PopenFuture(["sleep", "2"])
+    res = {}
+
+    def do_submit():
+        try:
+            ex.submit(fut)
+            res["submit"] = "accepted"
+        except hp.ShutdownError:
+            res["submit"] = "refused"
+
+    t = threading.Thread(target=do_submit, name="submitter")
+    t.start()
+    in_cs.wait(5)
+    returned = threading.Event()
+    sh = threading.Thread(target=lambda: (ex.shutdown(wait=True), returned.set()), name="shutter")
+    sh.start()
+    early = returned.wait(0.7)  # does shutdown(wait=True) return while submit() is still inside its critical section?
+    go_on.set()
+    t.join(5)
+    time.sleep(0.3)
+    running = fut.is_running()
+    sh.join(6)
+    try:
+        fut.cancel()
+    except Exception:  # noqa
+        pass
+    if early and res.get("submit") == "accepted" and running:
+        return {"reproduced": True, "detail": "submit() had checked the shutdown flag inside its critical section; shutdown(wait=True) set the flag, found no registered job and returned; submit() then registered and started the job: the solver process (`sleep 2`) was running after shutdown(wait=True) had returned", "inputs": "submit: lock, check flag | shutdown(wait=True) | submit: append, start"}
+    return {"reproduced": False, "detail": f"shutdown(wait=True) returned early={early}, submit {res.get('submit')}, job running afterwards={bool(running)}"}
 
 
 def replay_submit_race(r):
